@@ -333,6 +333,13 @@ static int insertNode(KSI_TreeBuilder *builder, KSI_TreeNode *node, int at) {
 
 		res = insertNode(builder, root, at + 1);
 		if (res != KSI_OK) {
+			/* Undo the join: the sub-tree of the leaves accepted earlier goes back to its slot and
+			 * the new node stays with the caller, only the joining node is released. */
+			builder->stack[at] = pSlot;
+			pSlot->parent = NULL;
+			node->parent = NULL;
+			root->leftChild = NULL;
+			root->rightChild = NULL;
 			KSI_pushError(builder->ctx, res, NULL);
 			goto cleanup;
 		}
